@@ -31,7 +31,7 @@ def run(ctx):
     ctx.rule('R9.3b', 'no fused keyword hides an opener/closer from the block matchers', floor=2)
     ctx.rule('R9.4', 'pass order in grouping.group: matching passes first (brackets, parentheses, then keyword blocks), joining passes after', floor=6)
     ctx.rule('R9.5', 'delimiter capture: no _group client accepts ( ) [ ] as an operand it absorbs', floor=20)
-    ctx.rule('R9.6', 'hand-written passes that run to the end of the list stop at the last groupable child (_groupable_tokens)', floor=1)
+    ctx.rule('R9.6', 'hand-written passes that run to the end of the list stop at the last groupable child; every matched class excludes its delimiters from _groupable_tokens', floor=1)
     KD.check_imt_shape(ctx)
     check_stack(ctx)
     check_tables(ctx)
@@ -290,6 +290,18 @@ def check_where_end(ctx, rid):
     if uses_groupable:
         ctx.ob(rid, 'group_where:end-of-list', loc, f'the open-ended WHERE stops at {tl}._groupable_tokens[-1]', True,
                f'classes with delimiters: {overriding}')
+        # sibling agreement: every class matched by _group_matching (it starts and ends with its delimiters) excludes them
+        for cname in MATCHED:
+            c = repo.cls(f'sqlparse.sql.{cname}')
+            m = c.methods.get('_groupable_tokens')
+            ok = False
+            detail = f'{cname} inherits TokenList._groupable_tokens (all children): an open-ended WHERE inside a {cname} swallows its closing token'
+            if m is not None:
+                rets = [n for n in own_nodes(m.node) if isinstance(n, ast.Return)]
+                ok = len(rets) == 1 and src(rets[0].value) == 'self.tokens[1:-1]'
+                detail = f'returns `{src(rets[0].value) if rets else None}`'
+            ctx.ob(rid, f'_groupable_tokens:{cname}', f'{c.mod.relpath}:{c.node.lineno}',
+                   f'{cname}._groupable_tokens excludes the opening and closing token', ok, detail)
         return
     # alternative idiom: explicit isinstance special-casing must cover every class that overrides _groupable_tokens
     covered = set()
